@@ -1760,7 +1760,9 @@ func (c *BytecodeCompiler) compileDeferExpressionNode(node *ast.DeferExpressionN
 		loc,
 		nil,
 		func() {
-			closureCompiler.compileNode(node.Expression, true)
+			// the closure returns the value of the deferred expression:
+			// expressions compiled without a result still need one for RETURN
+			closureCompiler.compileNodeWithResult(node.Expression)
 		},
 	)
 
